@@ -199,7 +199,7 @@ def run(facts, rep):
                 continue
             conds = {}
             for e in p.branches():
-                m = re.match(r'Gt\(len\(arg1\.(\w+)\), 1\)$', sk(e.term).replace('&', '').replace('*', ''))
+                m = re.match(r'Gt\((?:len|PtrMetadata)\((?:deref\(|as_slice\()?arg1\.(\w+)\)?\), 1\)$', sk(e.term).replace('&', '').replace('*', ''))
                 if m:
                     conds[m.group(1)] = e.value != 0
             vals = {}
@@ -218,6 +218,8 @@ def run(facts, rep):
                 expect.append('forward_mat')
             if conds.get('b_mats'):
                 expect.append('backward_mat')
+            if not conds:
+                raise Bad('reduce: no length test was read on a path that stores %s' % wrote)
             if set(conds) != {'f_mats', 'b_mats'} or wrote != expect:
                 ok3 = False
                 bad3 = 'under %s it stores %s' % (conds, wrote)
@@ -253,7 +255,7 @@ def run(facts, rep):
                     continue
                 cs = []
                 for e in p.calls():
-                    if e.name.split('::')[-1] == meth and len(e.args) == 2:
+                    if (e.name.split('::')[-1] == meth or (meth == 'append' and e.name.split('::')[-1] == 'extend')) and len(e.args) == 2:
                         a0 = sk(e.args[0]).replace('&mut ', '').replace('*', '')
                         a1 = e.args[1]
                         if a1[0] == 'mref':
